@@ -115,9 +115,9 @@ SPECS += [
     IndSpec(
         "hexital.indicators.atr.ATR",
         params=dict(RV, period=("int", None)),
-        lets=dict(LETS, TRN="'TR'"),
+        lets=dict(LETS, TRN="f'{N}_TR'"),
         extra_pre=dict(PRE_RV, **{"period>=2": "period >= 2"}),
-        subs={"self.sub_indicators['TR']": {"role": "prior"}},
+        subs={"self.sub_indicators[f'{N}_TR']": {"role": "prior"}},
         inv=ATR_INV,
         window="period",
         props=["C01", "C02", "C05", "C09", "C10", "C14"],
